@@ -13,6 +13,7 @@ package introspection
 //@ decl stable FullType.PossibleTypes by introspectionVisitor.EnterInterfaceTypeDefinition, introspectionVisitor.EnterUnionMemberType, NewFullType
 //@ decl stable FullType.EnumValues by introspectionVisitor.LeaveEnumValueDefinition, NewFullType
 //@ decl stable FullType.Fields by introspectionVisitor.LeaveFieldDefinition, NewFullType
+//@ decl stable JsonConverter.doc by JsonConverter.GraphQLDocument
 //@ func JsonConverter.importType
 //@   modifies *
 //@   safety none
